@@ -258,6 +258,7 @@ inline History gen_multi(Chooser& ch, const GenOpts& o) {
       else if (t.cfg.codec == CODEC_RS8 && what == 2) { t.cfg.codec = CODEC_RSM; t.cfg.m = 8; }
       s = t;
     }
+    if (ch.next() % 8 == 7) s.verb = 2;   // verbosity is process-wide in the library: a chatty neighbour
     h.scripts.push_back(s);
   }
   // now and then a long-lived noisy neighbour: thousands of duplicate submissions on one session before
